@@ -33,39 +33,45 @@ Definition set_invite_room_state (v : json) (ev : json) : json :=
 Section Invite.
   Variable sign : bytes -> bytes -> json -> json.
 
+  (* setUnsignedFieldForInvite and return *)
+  Definition invite_finish (i : inv_input) (signed : json) (state : list json) (log : list bytes) : event_result :=
+    if negb (iv_set_unsigned_ok i) then efail OPassthrough log
+    else
+      let v := match state with [] => JObj [] | _ => JArr state end in
+      {| er_out := OOk; er_log := log; er_already_joined := false;
+         er_event := Some (set_invite_room_state v signed) |}.
+
+  (* the known-room checks, once the stripped state is settled *)
+  Definition invite_stage (i : inv_input) (signed : json) (known : bool) (state : list json)
+             (log : list bytes) : event_result :=
+    if known then
+      match state with
+      | [] => efail OInternal log
+      | _ =>
+          let log3 := log ++ [entry [bs "M"; iv_req_room i; iv_invited_sender i]] in
+          match iv_membership i with
+          | None => efail OInternal log3
+          | Some cur => if bytes_eqb cur s_join then efail OForbidden log3
+                        else invite_finish i signed state log3
+          end
+      end
+    else invite_finish i signed state log.
+
   Definition invite_common (i : inv_input) (signed : json) (log : list bytes) : event_result :=
     let log1 := log ++ [entry [bs "K"; iv_req_room i]] in
     match iv_known_room i with
     | None => efail OInternal log1
     | Some known =>
         (* the stripped state: the caller's, else generated from the state querier *)
-        let stage (state : list json) (log2 : list bytes) : event_result :=
-          let finish (log3 : list bytes) : event_result :=
-            if negb (iv_set_unsigned_ok i) then efail OPassthrough log3
-            else
-              let v := match state with [] => JObj [] | _ => JArr state end in
-              {| er_out := OOk; er_log := log3; er_already_joined := false;
-                 er_event := Some (set_invite_room_state v signed) |} in
-          if known then
-            match state with
-            | [] => efail OInternal log2
-            | _ =>
-                let log3 := log2 ++ [entry [bs "M"; iv_req_room i; iv_invited_sender i]] in
-                match iv_membership i with
-                | None => efail OInternal log3
-                | Some cur => if bytes_eqb cur s_join then efail OForbidden log3 else finish log3
-                end
-            end
-          else finish log2 in
         match iv_given_state i with
         | [] =>
             let log2 := log1 ++ [entry [bs "G"; iv_req_room i]] in
             match iv_generated_state i with
             | QErr => efail OInternal log2
-            | QNil => stage [] log2
-            | QVal st => stage st log2
+            | QNil => invite_stage i signed known [] log2
+            | QVal st => invite_stage i signed known st log2
             end
-        | st => stage st log1
+        | st => invite_stage i signed known st log1
         end
     end.
 
